@@ -10,7 +10,7 @@
     failing_renders_agree
     if_false_removes if_true_transparent for_eq_unrolled choose_first_match_only
     attr_form_eq_elem_form_ctl replace_eq_content_strip_partial
-    macro_representation_irrelevant attr_form_eq_elem_form
+    macro_representation_irrelevant attr_form_eq_elem_form replace_refines_content_strip_attrs
     extract_flat_eq_tree construction_pipeline_eq_compile text_parse_eq_tree text_pipeline_eq_compile
     direlem_attrs_witness
 -/
@@ -467,6 +467,21 @@ theorem direlem_attrs_witness :
     docRender 50 direlemDoc [] = .ok [startEv ['b'] [], tx ['x'], endEv ['b']] := by
   constructor <;> rfl
 
+/-- With `py:attrs` on the same element the two are not equivalent (content + strip keeps the
+    element alive for `py:attrs`, whose expression may fail; `py:replace` never evaluates it), but
+    `py:replace` refines `py:content` + `py:strip`: whenever the latter renders, the former renders
+    the same output and ends in the same state. -/
+theorem replace_refines_content_strip_attrs (pre : List Dir) (x : XExpr) (e : Expr) (tag : Name)
+    (attrs : List (Name × Str)) (kids : List TNode) (hpre : ∀ d ∈ pre, d.ctl = true)
+    (hs1 : StrictSorted (pre ++ [.replace x, .attrs e]))
+    (hs2 : StrictSorted (pre ++ [.content x, .attrs e, .strip none]))
+    (st st' : St) (o : List Event)
+    (h : IOk (.flat (compileNode (.elem tag attrs (pre ++ [.content x, .attrs e, .strip none]) kids))) st o st') :
+    IOk (.flat (compileNode (.elem tag attrs (pre ++ [.replace x, .attrs e]) kids))) st o st' := by
+  simp only [compileNode, sortBy_implIdx_of_sorted _ hs1, sortBy_implIdx_of_sorted _ hs2,
+    attach_ctl_prefix pre hpre, attach, getLast_body, IOk.mkSub_iff] at h ⊢
+  exact apply_prefix_imp pre hpre (replace_attrs_tail_imp x e tag attrs) st o st' h
+
 /-! ### non-vacuity -/
 
 private def c (s : String) : List Char := s.toList
@@ -494,8 +509,10 @@ private def exPre : List Dir := [.for_ ['x'] (.var ['x', 's']), .if_ (.var ['x']
 
 example : (∀ d ∈ exPre, d.ctl = true) ∧ StrictSorted (exPre ++ [.attrs (.var ['w']), .strip none]) ∧
     StrictSorted (exPre ++ [.replace (.pure (.var ['y']))]) ∧
-    StrictSorted (exPre ++ [.content (.pure (.var ['y'])), .strip none]) := by
-  refine ⟨by decide, ?_, ?_, ?_⟩ <;> simp [StrictSorted, exPre, Dir.rank]
+    StrictSorted (exPre ++ [.content (.pure (.var ['y'])), .strip none]) ∧
+    StrictSorted (exPre ++ [.replace (.pure (.var ['y'])), .attrs (.var ['w'])]) ∧
+    StrictSorted (exPre ++ [.content (.pure (.var ['y'])), .attrs (.var ['w']), .strip none]) := by
+  refine ⟨by decide, ?_, ?_, ?_, ?_, ?_⟩ <;> simp [StrictSorted, exPre, Dir.rank]
 
 /-- … also with a `py:def` among the nested directives (`attr_form_eq_elem_form`) -/
 example : (∀ d ∈ Dir.def_ ['f'] [['p']] :: exPre, d.ctlDef = true) ∧
